@@ -5,6 +5,7 @@
 -/
 import AM.Model.Gossip
 import AM.Model.Frame
+import AM.Model.ConnPool
 
 namespace AM.Gossip
 open AM AM.AList
@@ -371,3 +372,86 @@ theorem split_frames_interleave_breaks :
 example : decodeFrames 5 (streamOf [[1, 2, 3], [], [4]]) = some [[1, 2, 3], [], [4]] := by decide
 
 end AM.Frame
+
+/-! ### the pooled connection of the TLS transport (AM.Model.ConnPool) -/
+
+namespace AM.ConnPool
+
+theorem borrow_alive (p : Pool) : (borrow p).2.alive = true := by
+  rcases p with ⟨cache, next⟩
+  cases cache with
+  | none => simp [borrow]
+  | some c =>
+    by_cases h : c.alive = true
+    · simp [borrow, h]
+    · simp [borrow, h]
+
+theorem inv_send (p : Pool) (peerFrom : Nat) (h : Inv p) : Inv (send p peerFrom).1 := by
+  rcases p with ⟨cache, next⟩
+  cases cache with
+  | none =>
+    intro d hd
+    by_cases hp : peerFrom ≤ next
+    · simp [send, borrow, write, hp] at hd ⊢; subst hd; simp
+    · simp [send, borrow, write, hp] at hd ⊢; subst hd; simp
+  | some c =>
+    have hc : c.gen < next := h c rfl
+    intro d hd
+    by_cases ha : c.alive = true
+    · by_cases hp : peerFrom ≤ c.gen
+      · simp [send, borrow, write, ha, hp] at hd ⊢; subst hd; exact hc
+      · simp [send, borrow, write, ha, hp] at hd ⊢; subst hd; exact hc
+    · by_cases hp : peerFrom ≤ next
+      · simp [send, borrow, write, ha, hp] at hd ⊢; subst hd; simp
+      · simp [send, borrow, write, ha, hp] at hd ⊢; subst hd; simp
+
+/-- **Recovery**: once the peer is back (it accepts every connection dialled from now on: `peerFrom ≤ p.next`),
+    at most ONE further send fails: a failed write marks the connection dead, the next borrow replaces it. -/
+theorem recovers_after_one_failure (p : Pool) (peerFrom : Nat) (h : Inv p) (hback : peerFrom ≤ p.next) :
+    (send p peerFrom).2 = true ∨ (send (send p peerFrom).1 peerFrom).2 = true := by
+  rcases p with ⟨cache, next⟩
+  simp only at hback
+  cases cache with
+  | none => left; simp [send, borrow, write, hback]
+  | some c =>
+    by_cases ha : c.alive = true
+    · by_cases hp : peerFrom ≤ c.gen
+      · left; simp [send, borrow, write, ha, hp]
+      · right; simp [send, borrow, write, ha, hp, hback]
+    · left; simp [send, borrow, write, ha, hback]
+
+/-- a delivered send leaves a connection that keeps delivering while the peer stays up -/
+theorem delivered_stays_delivered (p : Pool) (peerFrom : Nat)
+    (hok : (send p peerFrom).2 = true) : (send (send p peerFrom).1 peerFrom).2 = true := by
+  rcases p with ⟨cache, next⟩
+  cases cache with
+  | none =>
+    by_cases hp : peerFrom ≤ next
+    · simp [send, borrow, write, hp]
+    · simp [send, borrow, write, hp] at hok
+  | some c =>
+    by_cases ha : c.alive = true
+    · by_cases hp : peerFrom ≤ c.gen
+      · simp [send, borrow, write, ha, hp]
+      · simp [send, borrow, write, ha, hp] at hok
+    · by_cases hp : peerFrom ≤ next
+      · simp [send, borrow, write, ha, hp]
+      · simp [send, borrow, write, ha, hp] at hok
+
+/-- the changed pool (a dead cache entry is never replaced) never recovers: every later send fails -/
+theorem stale_entry_never_recovers (n : Nat) :
+    (sendStale (iter (fun q => (sendStale q 1).1) n { cache := some ⟨0, false⟩, next := 1 }) 1).2 = false ∧
+    (iter (fun q => (sendStale q 1).1) n { cache := some ⟨0, false⟩, next := 1 }).cache = some ⟨0, false⟩ := by
+  induction n with
+  | zero => simp [iter, sendStale, borrowStale, write]
+  | succ k ih =>
+    have hstep : (sendStale { cache := some ⟨0, false⟩, next := 1 } 1).1 = ({ cache := some ⟨0, false⟩, next := 1 } : Pool) := by
+      simp [sendStale, borrowStale, write]
+    simp only [iter, hstep]
+    exact ih
+
+example : Inv ({} : Pool) := fun c h => by simp at h
+example : (send { cache := some ⟨0, true⟩, next := 1 } 1).2 = false ∧
+          (send (send { cache := some ⟨0, true⟩, next := 1 } 1).1 1).2 = true := by decide
+
+end AM.ConnPool
